@@ -8,10 +8,15 @@ def tasks(tier, pid):
     t = [('bake',) + x for x in bake.tasks(tier, pid) if x[0] in ('step', 'canaries')]
     t += [('tracker',) + x for x in trackers.tasks(tier, pid) if x[0] != 'canaries']
     t.append(('tracker', 'canaries'))
+    from contracts import propsets
+    t += propsets.unit_contract_tasks(tier, pid)      # the trackers convert through Unit.convert's specification
     return t
 
 
 def run(pid, which, *args):
     if which == 'bake':
         return bake.run(pid, *args)
+    if which == 'unit_contract':
+        from contracts import propsets
+        return propsets.run_unit_contract(pid, *args)
     return trackers.run(pid, *args)
